@@ -42,6 +42,9 @@ type World struct {
 	dialCount map[string]int
 	ChunkMode int // default read segmentation for new connections: 0 whole, 1 bytewise, 2 random
 	SendBuf   int // default capacity of a stream direction in bytes
+	// UDPWriteHook, when set, sees every datagram a node-side socket is about to send (local port,
+	// destination port, bytes); a non-nil result fails that write and nothing is sent
+	UDPWriteHook func(local, remote int, p []byte) error
 	// SerialOpenLatency is how long a successful serial open takes (0 = no time)
 	SerialOpenLatency time.Duration
 	UDP               UDPFaults
